@@ -17,6 +17,11 @@
             abandoned 2 = NOT abandoned by its caller: the request goes to the unit that answers with
             an over-long frame (265 bytes); the call has to fail, its caller formats the error while
             other goroutines are inside Do (several clients at once) -- exercises the race detector
+            abandoned 3 = the call is expected to PANIC inside the library while it holds the lock (the
+            user's hook panics on requests to unit 96, or the request is a typed-nil pointer whose
+            Bytes() panics; request bytes empty then) and its caller recovers: status 2 is not a
+            failure for such a call; everybody else has to be served afterwards (the lock was
+            released by the deferred unlock; a case that hangs is a violation)
      conns  per connection, in the order they were dialled, [overlaps; midclose; closed; outside]: how often the library entered a call on the
             transport object (Read / Write / Close / Flush / Set*Deadline) while another of its calls
             was inside, and how often Close arrived between the write of a request and the read of
@@ -159,7 +164,8 @@ Definition parse_call (v : val) : option ccall :=
   match v with
   | VL [VI g; VI k; VB req; VI st; VB rep; VI ab] =>
       Some {| cc_g := Z.to_nat g; cc_k := Z.to_nat k; cc_req := req; cc_ok := Z.eqb st 0;
-              cc_bad := Z.leb 2 st; cc_reply := rep; cc_abandon := negb (Z.eqb ab 0);
+              cc_bad := Z.leb 2 st && negb (Z.eqb ab 3 && Z.eqb st 2); cc_reply := rep;
+              cc_abandon := negb (Z.eqb ab 0);
               cc_gave_up := Z.eqb ab 1 |}
   | _ => None
   end.
